@@ -1286,7 +1286,7 @@ theorem addValidCerts_wired (cs : List Cert) (p : Pool) (acc : List Event) (L : 
 
 /-- `add_vote`: refused (nothing changes for the trackers, nothing is announced), or the created certificates are
     added one by one -/
-theorem addVote_cases (p : Pool) (v : Vote) :
+theorem addVote_casesW (p : Pool) (v : Vote) :
     ((p.addVote v).1.trk = p.trk ∧ certsOf (p.addVote v).2.2 = []) ∨
     (∃ (q : Pool) (cs : List Cert), q.trk = p.trk ∧ (p.addVote v).1 = (q.addValidCerts cs []).1 ∧
       certsOf (p.addVote v).2.2 = cs.map LogItem.cert) := by
@@ -1310,13 +1310,13 @@ theorem addVote_cases (p : Pool) (v : Vote) :
 theorem addVote_wired (p : Pool) (v : Vote) (L : List LogItem) (w : Wired p.trk L)
     (hc : Consistent (L ++ certsOf (p.addVote v).2.2)) :
     Wired (p.addVote v).1.trk (L ++ certsOf (p.addVote v).2.2) := by
-  rcases addVote_cases p v with ⟨h1, h2⟩ | ⟨q, cs, h1, h2, h3⟩
+  rcases addVote_casesW p v with ⟨h1, h2⟩ | ⟨q, cs, h1, h2, h3⟩
   · rw [h1, h2, List.append_nil]; exact w
   · rw [h3] at hc ⊢
     rw [h2]
     exact addValidCerts_wired cs q [] L (by rw [h1]; exact w) hc
 
-theorem addCert_cases (p : Pool) (c : Cert) :
+theorem addCert_casesW (p : Pool) (c : Cert) :
     ((p.addCert c).1.trk = p.trk ∧ certsOf (p.addCert c).2.2 = []) ∨
     (∃ q : Pool, q.trk = p.trk ∧ (p.addCert c).1 = (q.addValidCert c).1 ∧ certsOf (p.addCert c).2.2 = [.cert c]) := by
   unfold Pool.addCert
@@ -1331,7 +1331,7 @@ theorem addCert_cases (p : Pool) (c : Cert) :
 theorem addCert_wired (p : Pool) (c : Cert) (L : List LogItem) (w : Wired p.trk L)
     (hc : Consistent (L ++ certsOf (p.addCert c).2.2)) :
     Wired (p.addCert c).1.trk (L ++ certsOf (p.addCert c).2.2) := by
-  rcases addCert_cases p c with ⟨h1, h2⟩ | ⟨q, h1, h2, h3⟩
+  rcases addCert_casesW p c with ⟨h1, h2⟩ | ⟨q, h1, h2, h3⟩
   · rw [h1, h2, List.append_nil]; exact w
   · rw [h3] at hc ⊢
     rw [h2]
